@@ -460,14 +460,14 @@ func synBounds(tier string) mergeBounds {
 	if tier == "quick" {
 		return mergeBounds{maxLen1: 3, triples: []int{0, 1, 3}, modes: []uint32{1026}, depth2: true, d2Menu: []int{1}, fullDrops: true}
 	}
-	return mergeBounds{maxLen1: 3, modes: []uint32{1, 1026}, depth2: true, d2Menu: []int{0, 1, 2, 3, 4, 5}, depth3: true, fullDrops: true}
+	return mergeBounds{maxLen1: 3, modes: []uint32{1, 1026}, depth2: true, d2Menu: []int{0, 1, 2, 3, 4, 5, 6}, depth3: true, fullDrops: true}
 }
 
 func init() {
 	run.Register(&run.Def{
 		ID:          "C13",
 		Level:       "model_checking",
-		Rule:        "explicit-state exploration of the merge state space restricted to a synonym menu of 6 segment shapes (same synonyms with different internal ids in different inputs; a term defined in several segments; a thesaurus present in only one input; two definers of one term; a segment without synonyms; an empty batch), inputs in memory or re-opened; transitions = Merge(ordered list of <=3 states, EVERY drop vector incl. all definers of a term / all documents of a thesaurus deleted); distinct depth-1 states (canonical key from the reference model) are merged again at depth 2 (and 3 in thorough). Oracle in every state: for every (thesaurus, term, exclusion bitmap) the (synonym, doc) pairs == reference of the survivors under the new numbering, terms without survivors absent, ordinary dictionaries unaffected. Plus an 'alphabet' family that reuses C12's BUILD alphabet as merge inputs: every batch of 1 and of 2 documents over the 15 document kinds (240 segments) merged alone under every non-empty drop vector (in memory and re-opened) and merged with every 1-document batch on either side, nothing dropped / its first document dropped (quick: a third of these pairs). Non-trivial = merge with >= 1 survivor.",
+		Rule:        "explicit-state exploration of the merge state space restricted to a synonym menu of 7 segment shapes (three-term thesauri; same synonyms with different internal ids in different inputs; a term defined in several segments; a thesaurus present in only one input; two definers of one term; a segment without synonyms; an empty batch), inputs in memory or re-opened; transitions = Merge(ordered list of <=3 states, EVERY drop vector incl. all definers of a term / all documents of a thesaurus deleted); distinct depth-1 states (canonical key from the reference model) are merged again at depth 2 (and 3 in thorough). Oracle in every state: for every (thesaurus, term, exclusion bitmap) the (synonym, doc) pairs == reference of the survivors under the new numbering, terms without survivors absent, ordinary dictionaries unaffected. Plus an 'alphabet' family that reuses C12's BUILD alphabet as merge inputs: every batch of 1 and of 2 documents over the 15 document kinds (240 segments) merged alone under every non-empty drop vector (in memory and re-opened) and merged with every 1-document batch on either side, nothing dropped / its first document dropped (quick: a third of these pairs). Non-trivial = merge with >= 1 survivor.",
 		Assumptions: batchAssumptions,
 		Bounds: map[string]string{
 			"quick":    "lists <=2 over 6 items + triples over 3 items, every drop vector, depth 2 with 1 item",
